@@ -7,7 +7,10 @@ use lru::LruCache;
 use once_cell::sync::Lazy;
 use parking_lot::{Mutex, RwLock};
 use rand::seq::SliceRandom;
+#[cfg(not(pgcat_verif))]
 use rand::thread_rng;
+#[cfg(pgcat_verif)]
+use simcore::rand_shim::thread_rng;
 use regex::Regex;
 use std::collections::HashMap;
 use std::fmt::{Display, Formatter};
@@ -17,7 +20,10 @@ use std::sync::{
     atomic::{AtomicBool, Ordering},
     Arc,
 };
+#[cfg(not(pgcat_verif))]
 use std::time::Instant;
+#[cfg(pgcat_verif)]
+use tokio::time::Instant;
 use tokio::sync::Notify;
 
 use crate::config::{
@@ -615,6 +621,8 @@ impl ConnectionPool {
             }
         }
 
+        #[cfg(pgcat_verif)]
+        simcore::yield_point("pool.from_config.before_store").await;
         POOLS.store(Arc::new(new_pools.clone()));
         Ok(())
     }
@@ -696,7 +704,11 @@ impl ConnectionPool {
     /// Check if the pool is paused and wait until it's resumed.
     pub async fn wait_paused(&self) -> bool {
         let waiter = self.paused_waiter.notified();
+        #[cfg(pgcat_verif)]
+        simcore::yield_point("pool.wait_paused.between").await;
         let paused = self.paused.load(Ordering::Relaxed);
+        #[cfg(pgcat_verif)]
+        simcore::yield_point("pool.wait_paused.before_wait").await;
 
         if paused {
             waiter.await;
@@ -927,6 +939,8 @@ impl ConnectionPool {
         error!("Banning instance {:?}, reason: {:?}", address, reason);
 
         let now = chrono::offset::Utc::now().naive_utc();
+        #[cfg(pgcat_verif)]
+        let now = simcore::clock::utc_now_naive();
         let mut guard = self.banlist.write();
 
         if let Some(client_info) = client_info {
@@ -990,6 +1004,8 @@ impl ConnectionPool {
         let exceeded_ban_time = match read_guard[address.shard].get(address) {
             Some((ban_reason, timestamp)) => {
                 let now = chrono::offset::Utc::now().naive_utc();
+                #[cfg(pgcat_verif)]
+                let now = simcore::clock::utc_now_naive();
                 match ban_reason {
                     BanReason::AdminBan(duration) => {
                         now.timestamp() - timestamp.timestamp() > *duration
